@@ -10,6 +10,7 @@
 package main
 
 import (
+	"errors"
 	"bytes"
 	"crypto/sha256"
 	"encoding/json"
@@ -97,7 +98,25 @@ func listPairs(l lib.UserList) [][]interface{} {
 
 func base(ev string) map[string]interface{} {
 	return map[string]interface{}{"ev": ev, "c": "", "k": "", "u": "", "p": "", "a": false, "ok": false,
-		"adm": false, "admknown": true, "upg": false, "list": [][]interface{}{}, "err": ""}
+		"adm": false, "admknown": true, "upg": false, "list": [][]interface{}{}, "err": "", "io": false, "n": 0}
+}
+
+// curBase: base directory of the scenario being executed (reload events of older dispatchers are not this run's)
+var curBase atomic.Value
+
+// ioFaultWindow is 1 while the driver has made the store's work area unusable ("breaktmp" step).
+var ioFaultWindow int32
+
+// isIOFail: the library's error wraps a failed system call and the driver is currently injecting such failures.
+func isIOFail(v interface{}) bool {
+	e, ok := v.(error)
+	if !ok || e == nil || atomic.LoadInt32(&ioFaultWindow) == 0 {
+		return false
+	}
+	var pe *os.PathError
+	var le *os.LinkError
+	var en syscall.Errno
+	return errors.As(e, &pe) || errors.As(e, &le) || errors.As(e, &en)
 }
 
 // sink is installed as verifSink: it translates hook events into trace records.
@@ -111,12 +130,12 @@ func (r *recorder) sink(ev string, args ...interface{}) {
 	case "exec.add", "exec.init":
 		m := base("exec")
 		m["k"], m["u"], m["p"], m["a"] = strings.TrimPrefix(ev, "exec."), args[0], r.tag(args[1].(string)), args[2]
-		m["ok"], m["err"] = isNilErr(args[3]), errStr(args[3])
+		m["ok"], m["err"], m["io"] = isNilErr(args[3]), errStr(args[3]), isIOFail(args[3])
 		r.add(m)
 	case "exec.update":
 		m := base("exec")
 		m["k"], m["u"], m["p"] = "update", args[0], r.tag(args[1].(string))
-		m["ok"], m["err"] = isNilErr(args[2]), errStr(args[2])
+		m["ok"], m["err"], m["io"] = isNilErr(args[2]), errStr(args[2]), isIOFail(args[2])
 		r.add(m)
 	case "exec.remove":
 		m := base("exec")
@@ -125,7 +144,7 @@ func (r *recorder) sink(ev string, args ...interface{}) {
 	case "exec.setadmin":
 		m := base("exec")
 		m["k"], m["u"], m["a"] = "setadmin", args[0], args[1]
-		m["ok"], m["err"] = isNilErr(args[2]), errStr(args[2])
+		m["ok"], m["err"], m["io"] = isNilErr(args[2]), errStr(args[2]), isIOFail(args[2])
 		r.add(m)
 	case "exec.list":
 		m := base("exec")
@@ -149,6 +168,10 @@ func (r *recorder) sink(ev string, args ...interface{}) {
 		m := base(strings.Replace(ev, ".", "", 1))
 		m["k"] = args[0]
 		if d, ok := args[1].(*lib.Dir); ok && d != nil {
+			if cb, _ := curBase.Load().(string); cb != "" && d.BaseDir != cb {
+				return // the dispatcher of an earlier scenario (same process, same signal)
+			}
+			m["n"] = int(d.Default)
 			m["u"] = d.BaseDir
 			m["p"] = fmt.Sprint(d.Default)
 			ids := []int{}
@@ -180,17 +203,38 @@ type gates struct {
 	parked map[string]bool
 	tokens map[string]int
 	gen    int
+	seen   map[uint64]int // goroutine id -> generation in which it first came to a gate
+}
+
+// goid: the calling goroutine's id (ids are never reused).
+func goid() uint64 {
+	var buf [64]byte
+	n := runtime.Stack(buf[:], false)
+	f := strings.Fields(string(buf[:n]))
+	if len(f) < 2 {
+		return 0
+	}
+	id, _ := strconv.ParseUint(f[1], 10, 64)
+	return id
 }
 
 var gt = func() *gates {
-	g := &gates{armed: map[string]bool{}, parked: map[string]bool{}, tokens: map[string]int{}}
+	g := &gates{armed: map[string]bool{}, parked: map[string]bool{}, tokens: map[string]int{}, seen: map[uint64]int{}}
 	g.cond = sync.NewCond(&g.mu)
 	return g
 }()
 
 func (g *gates) hold(point string) {
+	id := goid()
 	g.mu.Lock()
 	gen := g.gen
+	// a dispatcher of an earlier scenario that wakes up again (SIGHUP reaches every dispatcher of the process) must not
+	// take part in this scenario: it stops here for good
+	if first, ok := g.seen[id]; ok && first != gen {
+		g.mu.Unlock()
+		select {}
+	}
+	g.seen[id] = gen
 	if g.armed[point] {
 		g.parked[point] = true
 		g.cond.Broadcast()
@@ -357,12 +401,30 @@ func (r *runner) materialise(dir string) {
 		if f.Adm {
 			ext = ".admin"
 		}
-		if err := os.WriteFile(filepath.Join(r.base, u+ext), []byte(line+"totp: QUJD\n"), 0600); err != nil {
+		if err := os.WriteFile(filepath.Join(r.base, u+ext), []byte(line+r.auxOf(u)), 0600); err != nil {
 			panic(err)
 		}
 	}
 	r.cfg = filepath.Join(dir, "store.yaml")
 	os.WriteFile(r.cfg, []byte(concrete.ConfigYAML(r.base, r.sc.Default, r.sets, []uint{1, 2, 3})), 0600)
+}
+
+// auxOf: the auxiliary data materialised for user u; the variants rotate with the scenario seed (terminated line,
+// unterminated last line, CRLF line ends, a line longer than 64 KiB, arbitrary bytes)
+func (r *runner) auxOf(u string) string {
+	variants := []string{"totp: QUJD\n", "totp: QUJD\nu2f: REVG", "a: b\r\nc: d\r\n", "long: " + strings.Repeat("A", 70000) + "\nshort: x\n",
+		"bin: \x00\x01\xff\xfe\n\n\nend"}
+	names := []string{}
+	for n := range r.sc.Files {
+		names = append(names, n)
+	}
+	sort.Strings(names)
+	for i, n := range names {
+		if n == u {
+			return variants[(i+int(r.sc.Seed%1000003))%len(variants)]
+		}
+	}
+	return variants[0]
 }
 
 // project is pi: the real directory as model files (passwords identified by recomputation).
@@ -388,7 +450,7 @@ func (r *runner) projectDir(base string) (map[string]fileSt, bool, bool) {
 		line, rest := concrete.SplitFile(b)
 		f := fileSt{Present: true, Adm: ext == ".admin", Pw: "?"}
 		switch string(rest) {
-		case "totp: QUJD\n":
+		case r.auxOf(u):
 			f.Aux = "orig"
 		case "":
 			f.Aux = "none"
@@ -696,6 +758,7 @@ func (r *runner) run(dir string) scenResult {
 		defer msrv.Close()
 		sc.Mode = msrv.URL + "/api/update"
 	}
+	curBase.Store(r.base)
 	r.st, err = NewStore(r.cfg, sc.Mode, sc.PolicyType, sc.PolicyCond, sc.HooksDir)
 	if err != nil {
 		panic(fmt.Sprintf("NewStore: %v", err))
@@ -801,6 +864,13 @@ func (r *runner) run(dir string) scenResult {
 			r.load(s)
 		case "sleep":
 			time.Sleep(time.Duration(s.N) * time.Millisecond)
+		case "breaktmp": // the work area becomes a regular file: every add/update of the library fails with ENOTDIR
+			os.RemoveAll(filepath.Join(r.base, ".tmp"))
+			os.WriteFile(filepath.Join(r.base, ".tmp"), []byte("not a directory\n"), 0600)
+			atomic.StoreInt32(&ioFaultWindow, 1)
+		case "fixtmp":
+			os.Remove(filepath.Join(r.base, ".tmp"))
+			atomic.StoreInt32(&ioFaultWindow, 0)
 		case "hup":
 			r.hup(s)
 		case "free":
@@ -945,7 +1015,38 @@ func (r *runner) load(s step) {
 	}
 }
 
-func (r *runner) hup(s step) {}
+// hup: the operator switches the default parameter set to s.N and sends SIGHUP.  Under gating the dispatcher is
+// released once; Go's select may then take the reload or a queued request (both are behaviours of the model).
+func (r *runner) hup(s step) {
+	count := func() int {
+		n := 0
+		rec.mu.Lock()
+		for _, e := range rec.events[r.res.First:] {
+			if e["ev"] == "reloadok" || e["ev"] == "reloadfail" {
+				n++
+			}
+		}
+		rec.mu.Unlock()
+		return n
+	}
+	before := count()
+	os.WriteFile(r.cfg, []byte(concrete.ConfigYAML(r.base, uint(s.N), r.sets, []uint{1, 2, 3})), 0600)
+	syscall.Kill(os.Getpid(), syscall.SIGHUP)
+	time.Sleep(20 * time.Millisecond)
+	if r.sc.Gated {
+		if gt.waitParked(50*time.Millisecond, "disp.idle") == "" {
+			return
+		}
+		gt.release("disp.idle")
+		if gt.waitParked(watchdog, "disp.idle", "upgrade.send") == "" {
+			r.hang("after hup")
+		}
+		return
+	}
+	for i := 0; i < 2000 && count() == before; i++ {
+		time.Sleep(time.Millisecond)
+	}
+}
 
 // fdStorm: a sasl client connects while the process has no free file descriptor (accept fails with
 // EMFILE); after descriptors are free again that client and a fresh one must be answered.
